@@ -50,7 +50,7 @@ pub fn configs(prop: &str) -> Vec<Config> {
         "C11" => vec![c("backends", 8_000, 250_000), c("typed", 6_000, 150_000)],
         "C12" => vec![
             c("hash", 10_000, 300_000),
-            c("history", 10_000, 300_000),
+            c("history", 4_000, 120_000),
             c("threads", 4_000, 120_000),
         ],
         "C13" => vec![c("validate", 12_000, 400_000), c("torn", 12_000, 400_000)],
